@@ -5,8 +5,12 @@ Bounded-exhaustive enumeration of small scores (DESIGN section 4, C03) split int
 each case is a compact description that mc/c03_gen.expand turns into a score spec (mc/ir.py), the
 real Score is built through the public API, written with save_musicxml, read back with
 load_musicxml, and compared on exactly the attributes listed in the statement (mc/c03_proj.py).
-Reference values (notes that MusicXML cannot keep in their voice, sounding notes, measure extents)
-come from the spec alone (mc/c03_model.py); the file is also read by mc/c03_reader.py.
+Reference values (notes that MusicXML cannot keep in their voice, sounding notes) come from the spec
+alone (mc/c03_model.py); the written file is also read by the independent reader mc/c03_reader.py.
+
+Clauses: export-total / import-total / reexport-total (no exception), roundtrip-<attribute group>
+(load(save(s)) == s on the statement's attributes), file-denotes-sounding-notes (independent reader),
+byte-fixpoint (save(load(file)) == file).
 """
 import io
 import os
@@ -23,17 +27,24 @@ RULE = (
 )
 ASSUMPTIONS = [
     "generated scores follow the importer's conventions: Page 1 and System 1 from the first to the last point, "
-    "first point at t=0, explicit voices and staves, measure name == str(number), unique note ids, constant "
-    "directions end at the next direction of the same family (score.set_end_times), tempo in integral quarters",
-    "notes, rests and graces do not cross barlines or divisions changes; concurrently tied notes have distinct pitches",
+    "first point at t=0, explicit voices and staves, measure number == position in the part and name a string, "
+    "unique note ids, constant directions end at the next direction of the same family (score.set_end_times), "
+    "tempo marks in integral quarters with unit 'q', barline fermatas with ref left/middle/right matching their place",
+    "notes, rests and graces do not cross barlines or divisions changes; concurrently tied notes have distinct pitches; "
+    "slurs run forward in time; a grace run belongs to the note that is written first in its voice at that onset",
     "voice re-assignment reading: notes that are longer than the shortest note of their voice at the same onset, or "
     "that sound past the next onset of their voice (per measure segment), may change voice to one that is unused "
     "during their span; every other note keeps its voice",
     "symbolic durations are compared through the public property GenericNote.symbolic_duration (a missing "
-    "explicit value and the estimated value are the same thing); alter None == 0; direction staff None == 1; "
-    "Direction.raw_text, doc_order, Page/System and end times of signatures/clefs are not compared",
+    "explicit value and the estimated value are the same thing); alter None == 0; direction staff None == 1 and only "
+    "dynamics are put on staff 2; Direction.raw_text, doc_order, Page/System and end times of signatures/clefs are "
+    "not compared",
     "grace_type is compared for 'grace' and 'acciaccatura' (slash), grace chains through grace_prev/grace_next ids",
-    "lxml parsing/serialisation is trusted",
+    "excluded from the main sub-spaces and explored by the gated sub-spaces X1-X3 once known_findings.json has the "
+    "corresponding open entry (see proposed_fixes/C03-NOTES.md): a divisions change inside a measure at a time where "
+    "nothing starts or ends; a fermata on the right barline of a measure that is followed by another measure; plain "
+    "score.Words objects",
+    "lxml parsing/serialisation is trusted; the independent reader pairs ties by pitch and time",
 ]
 CHUNK = 40
 
@@ -74,7 +85,6 @@ def _load_via_path(load_musicxml, data):
 def eval_case(case):
     from partitura.io.exportmusicxml import save_musicxml
     from partitura.io.importmusicxml import load_musicxml
-    from mc import ir
     from mc import c03_proj as P
     from mc import c03_reader as R
 
